@@ -17,6 +17,8 @@ def check(tree, rep, tier='quick', seed=0):
     R.k0_solve_shape(core, rep)          # every requested form is known before the first line is attempted
     from ..linerules import l4_no_demand_inside_assert
     l4_no_demand_inside_assert(tree, rep)   # what a definition demands does not depend on the interpreter's -O switch
+    from .c17 import shared_rule, get_catalogue
+    shared_rule(get_catalogue(tree), rep)      # every copy of a form owns its line objects: a shared one is stored under the last copy's name and the earlier copy's required line is missing
     from ..linerules import l2c_generators_consumed_once
     l2c_generators_consumed_once(tree, rep)      # a demand (or a gate) written inside a generator that nothing consumes never happens
     R.k1_success_condition(core, rep)    # success => nothing demanded is left unmet (first sentence of the property)
